@@ -1,8 +1,10 @@
 From Coq Require Import ZArith List Bool.
-From UDS Require Import Lib.Bytes Model.Entry.
+From UDS Require Import Lib.Bytes Model.Entry Model.Names Model.Helpers.
 Import ListNotations.
 Open Scope Z_scope.
 
 Definition run_case (e : Z) (a : list Z) (b : list bytes) : list Z :=
   if (1700 <=? e) && (e <? 1800) then entry_message e a b
+  else if (2000 <=? e) && (e <? 2100) then entry_names e a
+  else if (1900 <=? e) && (e <? 2000) then entry_helpers e a
   else [-999].
